@@ -292,13 +292,14 @@ Definition compile_send (r : reader) : list prim :=
 Definition compile_send_element (r : reader) (sn : name) (sa : list attr) : list prim :=
   check_open :: PTok (TStart sn sa) :: body_prims (r_toks r) false (r_fail r) sn.
 
-(* getIDTyp: scan until both an id and a type attribute have been seen *)
+(* getIDTyp: scan the unqualified attributes until both an id and a type
+   attribute have been seen *)
 Fixpoint get_id_typ (a : list attr) (i : nat) (idx : option nat) (id : bytes) (tdone : bool) : option nat * bytes :=
   match a with
   | [] => (idx, id)
   | x :: r =>
-      let isid := bytes_eqb (nlocal (aname x)) s_id in
-      let istyp := bytes_eqb (nlocal (aname x)) s_type in
+      let isid := plain_is s_id x in
+      let istyp := plain_is s_type x in
       let idx' := if isid then Some i else idx in
       let id' := if isid then aval x else id in
       let tdone' := tdone || (negb isid && istyp) in
